@@ -1,3 +1,62 @@
-(* C09 — statements are added when the corresponding facts file lands *)
-From SV Require Import Bytes Client Transport Server.
-Theorem C09_placeholder : True. Proof. exact I. Qed.
+(* C09 — operation results mirror the server's status reply.
+
+   Model: ms/Client.v ([read_line], [parse_status_text], [read_response], [simple_cmd] =
+   __read_line/__parse_status_text/__read_response/__send_command after the status-text
+   repair).  Spec: the RFC 5804 reply grammar of ms/Server.v ([reply], [render_reply]: status
+   atom, optional response code, optional text as quoted string or literal).
+   Proofs: ms/StatusFacts.v. *)
+From Coq Require Import String.
+From Coq Require Import List NArith Bool.
+From SV Require Import Bytes Client Transport Server StatusFacts.
+Import ListNotations.
+
+(* Full statement for every command with a single status reply (HAVESPACE, PUTSCRIPT,
+   CHECKSCRIPT, DELETESCRIPT, SETACTIVE, native RENAMESCRIPT): for every peer, every reply r of
+   the reply grammar whose response code is a single line with balanced quotes (reply_ok),
+   whatever follows it on the stream (extra):
+     OK  -> True, client fields unchanged;
+     NO  -> False, errcode = the reply's response code ("" if absent), errmsg = its text ("" if absent),
+            for quoted and literal texts, any octets;
+     BYE -> Error;
+   and for OK/NO exactly the reply is consumed: what follows it is left for the next call. *)
+Theorem C09_mirror :
+  forall (P : Type) (react : P -> bytes -> P * bytes) (oc ot : P -> option (P * bytes))
+         (r : reply) (f : nat) (verb : bytes) (args : list arg) (st : cstate) (w : sworld P)
+         (p' : P) (extra : bytes),
+    reply_ok r -> s_stream P w = [] ->
+    react (s_peer P w) (command_bytes verb args) = (p', render_reply r ++ extra) ->
+    let res := interp_s P react oc ot (simple_cmd (S f) verb args st finish) w in
+    fst res = mirror r st
+    /\ (r_status r <> StBYE ->
+        snd res = mkSW P p' extra (S (s_n P w)) (s_conn P w) (Transport.s_tls P w)
+                       (WSend (s_conn P w) (Transport.s_tls P w) (command_bytes verb args) :: s_log P w)).
+Proof. exact StatusFacts.simple_cmd_mirror. Qed.
+Print Assumptions C09_mirror.
+
+Example C09_mirror_meaning :
+  forall r st, mirror r st =
+               match r_status r with
+               | StOK => ODone (VBool true) st
+               | StNO => ODone (VBool false) (set_err (code_of r) (text_of r) st)
+               | StBYE => OFail ExBye st
+               end.
+Proof. intros r st. unfold mirror. destruct (r_status r); reflexivity. Qed.
+
+(* The general form: the final status reply of ANY operation (listing, script download, every
+   step of the emulated rename, connect) is read by read_response; whatever continuation k the
+   operation supplies, it is resumed with the right status and client fields and with exactly
+   the reply consumed. *)
+Theorem C09_read_response :
+  forall (P : Type) (react : P -> bytes -> P * bytes) (oc ot : P -> option (P * bytes))
+         (r : reply) (f : nat) (nbl : option nat) (ql : bool) (resp : bytes) (cpt : nat) (st : cstate)
+         (k : cstate -> option bytes -> option bytes -> bytes -> prog) (w : sworld P) (rest : bytes),
+    reply_ok r -> s_stream P w = render_reply r ++ rest ->
+    interp_s P react oc ot (read_response (S f) nbl ql resp cpt st k) w =
+    match r_status r with
+    | StOK => interp_s P react oc ot (k st (Some (bs "OK")) (data_of r) resp) (s_set P rest w)
+    | StNO => interp_s P react oc ot (k (set_err (code_of r) (text_of r) st) (Some (bs "NO")) (data_of r) resp)
+                       (s_set P rest w)
+    | StBYE => (OFail ExBye st, s_set P (after_line r ++ rest) w)
+    end.
+Proof. exact StatusFacts.read_response_reply. Qed.
+Print Assumptions C09_read_response.
